@@ -77,7 +77,7 @@ def dist_parse(cases):
 PARSE_PROPS = {
     "C01": P(["Model/LrDriver.v", "Proofs/Totality.v", "Proofs/ParserState.v", "Proofs/Typing.v", "Proofs/Ainfer.v", "Proofs/UserTyped.v",
               "Proofs/Automaton.v", "Proofs/LexerSafe.v", "Proofs/StackInv.v", "Proofs/DriverSafe.v", "Proofs/StackProp.v", "Proofs/ArityOk.v",
-              "Proofs/LexProgress.v", "Properties/C01.v"], [],
+              "Proofs/LexProgress.v", "Proofs/Termination.v", "Proofs/EndToEnd.v", "Properties/C01.v"], [],
              gens.gen_C01,
              "hand-picked crashers of the pinned tree + character soups, token soups, mutated/truncated documents, multi-byte characters and "
              "Unicode whitespace injected into gaps/comments/docs/strings, sets of up to 6 partly malformed files, generic nesting to depth "
